@@ -97,7 +97,7 @@ def calls_storages_CSVStorage : List (String × List String) := [
   ("read", ["super", "super().read"]),
   ("reset", ["self._write"]),
   ("_check_for_existing_data", ["self._handle.seek", "self._handle.tell"]),
-  ("_cleanup_temp_storage", ["os.path.exists", "os.remove", "self._temp_handle.close"]),
+  ("_cleanup_temp_storage", ["<finally>", "os.path.exists", "os.remove", "self._temp_handle.close"]),
   ("_deserialize_measurement", []),
   ("_deserialize_storage_item", ["Point", "Point()._deserialize_from_list"]),
   ("_deserialize_timestamp", ["datetime.fromisoformat"]),
